@@ -26,11 +26,11 @@ ASSUMPTIONS = [
 
 def nodes():
     leaf = st.fixed_dictionaries({
-        "kind": st.sampled_from(["extract", "extract", "outermost", "child", "fill", "gcm", "since", "until_int", "until_frame", "slice"]),
+        "kind": st.sampled_from(["extract", "extract", "outermost", "child", "fill", "gcm", "gcmx", "since", "until_int", "until_frame", "slice"]),
         "wc": st.booleans(), "rc": st.booleans(), "kids": st.just([]),
         "boom": st.sampled_from([None, None, None, "base", "exc"])})
     return st.recursive(leaf, lambda ch: st.fixed_dictionaries({
-        "kind": st.sampled_from(["extract", "extract", "extract", "outermost", "child", "fill", "gcm", "since", "until_int",
+        "kind": st.sampled_from(["extract", "extract", "extract", "outermost", "child", "fill", "gcm", "gcmx", "since", "until_int",
                                  "until_frame", "slice"]),
         "wc": st.booleans(), "rc": st.booleans(), "kids": st.lists(ch, min_size=1, max_size=2),
         "boom": st.sampled_from([None, None, None, "base", "exc"])}), max_leaves=8)
